@@ -67,10 +67,11 @@ impl<'a> BinArchiveReader<'a> {
     }
 
     pub fn read_bytes(&mut self, count: usize) -> Result<Vec<u8>> {
-        let mut result: Vec<u8> = Vec::new();
-        for _ in 0..count {
-            result.push(self.read_u8()?);
+        if count == 0 {
+            return Ok(Vec::new());
         }
+        let result = self.archive.read_bytes(self.position, count)?.to_vec();
+        self.position += count;
         Ok(result)
     }
 
@@ -183,8 +184,9 @@ impl<'a> BinArchiveWriter<'a> {
     }
 
     pub fn write_bytes(&mut self, value: &[u8]) -> Result<()> {
-        for byte in value {
-            self.write_u8(*byte)?;
+        if !value.is_empty() {
+            self.archive.write_bytes(self.position, value)?;
+            self.position += value.len();
         }
         Ok(())
     }
